@@ -250,6 +250,14 @@ def generate(rng, i):
         # every accrual point, including the one that starts the accrual clock, is a rebalance that trades nothing
         only_rebalances = True
         script = [dict(op, op="rebal_empty") if op["op"] == "accrue" else op for op in script if op["op"] in ("accrue", "rebal_empty", "rate", "fquote")]
+    if i % 12 == 3:
+        # an unusual but legal configuration: a markup of 100% and more (idle cash earns nothing, loans cost
+        # rate + markup) - as long as 1 + rate - markup stays positive at every rate of the script
+        lowest = min([rate] + [op["r"] for op in script if op["op"] == "rate"])
+        for big in ([1.1, 1.0] if i % 24 == 3 else [1.0]):
+            if 1 + lowest - big > 0.01:
+                markup = big
+                break
     return {"kind": "c06", "zones": zones, "only_rebalances": only_rebalances, "cash": cash, "rate": rate, "markup": markup, "setup": setup,
             "lev": rng.choice([1.5, 2.0, 3.0]), "fut_side": rng.choice([1, -1]), "t0": "2000-01-01T00:00:00", "script": script}
 
